@@ -135,6 +135,8 @@ struct Rec<'a> {
     out: Vec<OutLine>,
     labels: Vec<Label>,
     panic: String,
+    /// the error is a validation error (the reader's validating entry points print issues without snippets)
+    validation: bool,
 }
 
 fn lc(l: &serde_saphyr::Location) -> LC {
@@ -454,7 +456,7 @@ fn render_all(doc: &Doc, id: &str, radii: &[usize], rng: &mut Rng, w: &mut NdWri
                     if locs.len() == 2 { stats.dual += 1; }
                     if out.iter().any(|l| l.kind == "src" && l.content.contains(&8230)) { stats.cropped += 1; stats.nontrivial += 1; }
                     *stats.families.entry(doc.family.to_string()).or_default() += 1;
-                    w.put(&Rec { id: format!("{id}-r{radius}-{entry}-{fmt}-{}", snippet as u8), kind: "render", yaml: if doc.text.len() < 400 { &doc.text } else { "(long)" }, text: text_cp.clone(), lines: lines.clone(), radius: radius as i64, snippet, entry, fmt, locs, out, labels: vec![], panic });
+                    w.put(&Rec { id: format!("{id}-r{radius}-{entry}-{fmt}-{}", snippet as u8), kind: "render", yaml: if doc.text.len() < 400 { &doc.text } else { "(long)" }, text: text_cp.clone(), lines: lines.clone(), radius: radius as i64, snippet, entry, fmt, locs, out, labels: vec![], panic, validation: doc.target == Target::Valid });
                 }
             }
         }
@@ -495,11 +497,11 @@ fn render_all(doc: &Doc, id: &str, radii: &[usize], rng: &mut Rng, w: &mut NdWri
         Ok(Some((loc, labels, s))) => {
             stats.miette += 1;
             let out = s.split('\n').map(|l| OutLine { kind: "other", raw: l.chars().map(|c| c as u32).collect(), ..Default::default() }).collect();
-            w.put(&Rec { id: format!("{id}-miette"), kind: "miette", yaml: if doc.text.len() < 400 { &doc.text } else { "(long)" }, text: text_cp, lines: vec![], radius: 0, snippet: true, entry: "str", fmt: "dev", locs: loc.into_iter().collect(), out, labels, panic: String::new() });
+            w.put(&Rec { id: format!("{id}-miette"), kind: "miette", yaml: if doc.text.len() < 400 { &doc.text } else { "(long)" }, text: text_cp, lines: vec![], radius: 0, snippet: true, entry: "str", fmt: "dev", locs: loc.into_iter().collect(), out, labels, panic: String::new(), validation: doc.target == Target::Valid });
         }
         Ok(None) => {}
         Err(p) => {
-            w.put(&Rec { id: format!("{id}-miette"), kind: "miette", yaml: "(panic)", text: vec![], lines: vec![], radius: 0, snippet: true, entry: "str", fmt: "dev", locs: vec![], out: vec![], labels: vec![], panic: p });
+            w.put(&Rec { id: format!("{id}-miette"), kind: "miette", yaml: "(panic)", text: vec![], lines: vec![], radius: 0, snippet: true, entry: "str", fmt: "dev", locs: vec![], out: vec![], labels: vec![], panic: p, validation: false });
         }
     }
 }
